@@ -76,7 +76,7 @@ func tryReplay(fr *FuncResult, o *Oblig, model map[string]string) (bool, string,
 	if len(model) == 0 && !strings.Contains(string(tdata), "VERIF-REPLAY-ENUMERATES") {
 		return false, "", "" // template needs model values
 	}
-	tmpl, err := template.New("replay").Option("missingkey=error").Parse(string(tdata))
+	tmpl, err := template.New("replay").Delims("<%", "%>").Option("missingkey=error").Parse(string(tdata))
 	if err != nil {
 		return false, "template error: " + err.Error(), string(tdata)
 	}
